@@ -15,25 +15,27 @@ INFO = dict(
   explanation='The real Thrift / ThriftMux stacks from the public builders; every call carries a unique marker argument so the bytes of its '
               'request can be recognised in the wire log of the fake TCP layer (virtual time, connection, bytes). The time-out T and the '
               'latency of one hop are symbolic, so that the deadline falls before or after that hop by solver decision: waiting for the client '
-              'to open (slow first connect), waiting in the pool queue behind another call (max_watermark=1), waiting for a second connection '
+              'to open (slow first connect), waiting at the balancer open gate (message handed to the sink chain directly with StaticDispatchMessage), waiting in the pool queue behind another call (max_watermark=1), waiting for a second connection '
               'to connect, waiting in the multiplexed send queue behind a slow write (back-pressure), and on the wire. Oracle: for every call '
               'that was handed TimeoutError at time tc no write containing its marker happens at a time > tc; for ThriftMux, if the request was '
               'written before tc and the connection is still open, a Tdiscarded frame naming exactly its tag is written (and none for requests '
               'never written).',
-  bounds={'quick': 'one hop per scenario (client open, pool queue, second connect, mux send queue behind a blocked write, own blocked write, on the wire), <= 2 calls', 'thorough': 'as quick plus two calls waiting in the pool queue with independent symbolic time-outs'},
+  bounds={'quick': 'one hop per scenario (client open, balancer open gate, pool queue, second connect, mux send queue behind a blocked write, own blocked write, on the wire), <= 2 calls', 'thorough': 'as quick plus two calls waiting in the pool queue with independent symbolic time-outs'},
   outside=['several slow hops at once', 'the Kafka stack'],
   stubs=['as C01', 'fake sendall may block for a symbolic duration (back-pressure) in the send-queue scenario',
          'pool max_watermark=1 through the public builder ReplaceRole() in the pool-queue scenario'],
   assumptions=['A1-A5'],
 )
 EXPECT_COVERS = ['M:timeout-during-own-blocked-write', 'T:timeout-while-opening', 'T:timeout-in-pool-queue', 'T:timeout-while-connecting', 'M:timeout-in-send-queue',
-                 'M:timeout-on-the-wire-discarded', 'M:timeout-while-opening']
+                 'M:timeout-on-the-wire-discarded', 'M:timeout-while-opening', 'T:timeout-at-balancer-open-gate', 'M:timeout-at-balancer-open-gate']
 
 
 def jobs(tier):
   js = []
   for k in ('T', 'M'):
     js.append(dict(name='%s-open-wait' % k, stack=k, sc='open', cost=100))
+  for k in ('T', 'M'):
+    js.append(dict(name='%s-balancer-open-gate' % k, stack=k, sc='gate', cost=100))
   js.append(dict(name='T-pool-queue', stack='T', sc='poolq', cost=2000, shards=8, shard_depth=3))
   js.append(dict(name='T-connect-wait', stack='T', sc='connect', cost=1000, shards=8, shard_depth=3))
   if tier != 'quick':
@@ -85,6 +87,25 @@ def make_body(job):
       gevent.sleep(30)
       out = judge(e, 'call', 'MARK0', ar, script, mux)
       if out == 'timeout-unsent': cover(k + ':timeout-while-opening')
+      c.DispatcherClose()
+    elif sc == 'gate':
+      # a message handed to the sink chain directly (MessageDispatcher.StaticDispatchMessage, as the Kafka router does)
+      # while the balancer is still opening waits behind the balancer's own open gate; its deadline lands before or
+      # after the first connection is up
+      from scales.dispatch import MessageDispatcher
+      from scales.message import MethodCallMessage
+      T = fresh_real('T', 0, 6, lo_strict=True); L = fresh_real('open_latency', 0, 8)
+      script = netm.Script()
+      e.net.endpoint('a', 1, peer=lambda s: peer_cls(k)(s, script), connect_delay=L)
+      c = client(k, 'tcp://a:1', 30, open_timeout=0)
+      t0 = vtime.now()
+      msg = MethodCallMessage(c._dispatcher._service, 'hi', ('MARK0',), {})
+      ar = MessageDispatcher.StaticDispatchMessage(c._dispatcher.next_sink, None, t0, t0 + T, msg)
+      hdecide(T < L)
+      gevent.sleep(30)
+      out = judge(e, 'call', 'MARK0', ar, script, mux)
+      if out == 'timeout-unsent': cover(k + ':timeout-at-balancer-open-gate')
+      check('no-greenlet-error', not vtime.ERRORS)
       c.DispatcherClose()
     elif sc == 'poolq':
       T = fresh_real('T', 0, 6, lo_strict=True); dA = fresh_real('first_call_server_delay', 0, 10)
